@@ -48,6 +48,7 @@ FINGERPRINTS = [
     ("src/cli/utils.py", ["setup_base_orchestrator", "load_config_file", "handle_linting_error", "get_or_detect_project_root",
                           "_determine_project_root_for_context", "_infer_root_from_config"]),
     ("src/cli/main.py", ["cli"]),
+    ("src/utils/project_root.py", ["get_project_root", "_find_root_with_pyprojroot", "_find_root_manual"]),
     ("src/cli/linters/shared.py", ["ensure_config_section", "set_config_value", "create_linter_command", "run_linter_command"]),
     ("src/cli/linters/code_smells.py", ["_load_dry_config_file", "_setup_dry_orchestrator", "_execute_dry_lint"]),
     ("src/cli/linters/structure_quality.py", ["_execute_nesting_lint", "_execute_srp_lint"]),
@@ -603,6 +604,35 @@ def dash_config():
             + defn("global_config_used_by_linters", "bool", "true" if used else "false"))
 
 
+def root_detection():
+    """project-root markers (src/utils/project_root.py) and the root-group --config checks a linter command performs"""
+    f = find_func(parse("src/utils/project_root.py"), "_find_root_with_pyprojroot")
+    loops = [n for n in ast.walk(f) if isinstance(n, ast.For) and isinstance(n.iter, ast.List)]
+    if len(loops) != 1:
+        raise Unsupported("_find_root_with_pyprojroot: criterion loop")
+    marks = []
+    for e in loops[0].iter.elts:
+        if not (isinstance(e, ast.Call) and isinstance(e.func, ast.Name) and e.func.id in ("has_dir", "has_file") and len(e.args) == 1 and _const_str(e.args[0])):
+            raise Unsupported("_find_root_with_pyprojroot: criterion")
+        marks.append(_const_str(e.args[0]))
+    m = ast.unparse(find_func(parse("src/utils/project_root.py"), "_find_root_manual"))
+    if not all(f"'{x}'" in m for x in marks) or "return current" not in ast.unparse(f):
+        raise Unsupported("project_root: manual search disagrees / no fallback to the start directory")
+    g = ast.unparse(find_func(parse("src/cli/utils.py"), "get_or_detect_project_root"))
+    if "search_start = first_path if first_path.is_dir() else first_path.parent" not in g or "return get_project_root(search_start)" not in g:
+        raise Unsupported("get_or_detect_project_root shape")
+    d = ast.unparse(find_func(parse("src/cli/utils.py"), "_determine_project_root_for_context"))
+    if "return _infer_root_from_config(config_path, verbose)" not in d:
+        raise Unsupported("_determine_project_root_for_context: --config no longer fixes the root")
+    missing = "if config_path and (not Path(config_path).exists()):" in d and "sys.exit(2)" in d
+    c = find_func(parse("src/cli/main.py"), "cli")
+    invalid = any(isinstance(h, ast.ExceptHandler) and h.type is not None and ast.unparse(h.type) == "ConfigError"
+                  and "sys.exit(2)" in ast.unparse(h) for h in ast.walk(c))
+    return (defn("root_markers", "list string", coq_str_list(marks))
+            + defn("global_config_missing_exits", "bool", "true" if missing else "false")
+            + defn("global_config_invalid_exits", "bool", "true" if invalid else "false"))
+
+
 def exit_codes():
     out = []
     for rel, fn in (("src/cli/linters/structure_quality.py", "_execute_nesting_lint"), ("src/cli/linters/structure_quality.py", "_execute_srp_lint"),
@@ -634,5 +664,6 @@ ITEMS = [
     ("guards", guards),
     ("cli_overrides", cli_overrides),
     ("dash_config", dash_config),
+    ("root_detection", root_detection),
     ("exit_codes", exit_codes),
 ]
